@@ -429,13 +429,14 @@ theorem parseInstr_normal (h : Params) (input : Bytes) : (parseInstr h input).No
 /-! ## fuel -/
 
 /-- any fuel above the input length gives the same trace -/
-theorem traceLoop_fuel (h : Params) : ∀ (f1 f2 : Nat) (row : Row) (input : Bytes),
-    input.length < f1 → input.length < f2 → traceLoop h f1 row input = traceLoop h f2 row input := by
+theorem traceLoop_fuel (h : Params) : ∀ (f1 f2 : Nat) (row : Row) (inSeq : Bool) (input : Bytes),
+    input.length < f1 → input.length < f2 →
+    traceLoop h f1 row inSeq input = traceLoop h f2 row inSeq input := by
   intro f1
   induction f1 with
-  | zero => intro f2 row input h1; omega
+  | zero => intro f2 row inSeq input h1; omega
   | succ f1 ih =>
-    intro f2 row input h1 h2
+    intro f2 row inSeq input h1 h2
     cases f2 with
     | zero => omega
     | succ f2 =>
@@ -444,23 +445,23 @@ theorem traceLoop_fuel (h : Params) : ∀ (f1 f2 : Nat) (row : Row) (input : Byt
       | ok p =>
         obtain ⟨ins, rest⟩ := p
         have hc := parseInstr_consumes h input ins rest hp
-        have key : ∀ row', traceLoop h f1 row' rest = traceLoop h f2 row' rest :=
-          fun row' => ih f2 row' rest (by omega) (by omega)
+        have key : ∀ row' b, traceLoop h f1 row' b rest = traceLoop h f2 row' b rest :=
+          fun row' b => ih f2 row' b rest (by omega) (by omega)
         simp only [key]
       | err e => rfl
       | panic w => rfl
       | diverge => rfl
 
 /-- one unfolding of `traceLoop` at the canonical fuel -/
-theorem traceLoop_step (h : Params) (row : Row) (input : Bytes) (ins : Instr) (rest : Bytes)
+theorem traceLoop_step (h : Params) (row : Row) (inSeq : Bool) (input : Bytes) (ins : Instr) (rest : Bytes)
     (hp : parseInstr h input = .ok (ins, rest)) :
-    traceLoop h (input.length + 1) row input =
+    traceLoop h (input.length + 1) row inSeq input =
       match execute h row ins with
-      | (row, .err e) => .err e :: traceLoop h (rest.length + 1) (reset h row) rest
-      | (row, .noEmit) => traceLoop h (rest.length + 1) row rest
+      | (row, .err e) => .err e :: traceLoop h (rest.length + 1) (reset h row) inSeq rest
+      | (row, .noEmit) => traceLoop h (rest.length + 1) row inSeq rest
       | (row, .emit) =>
-        if row.tombstone then .hidden row :: traceLoop h (rest.length + 1) (reset h row) rest
-        else .row row :: traceLoop h (rest.length + 1) (reset h row) rest := by
+        if skipRow row inSeq then .hidden row :: traceLoop h (rest.length + 1) (reset h row) inSeq rest
+        else .row row :: traceLoop h (rest.length + 1) (reset h row) (!row.endSequence) rest := by
   have hc := parseInstr_consumes h input ins rest hp
   have hne : input.isEmpty = false := by
     cases input with
@@ -468,8 +469,8 @@ theorem traceLoop_step (h : Params) (row : Row) (input : Bytes) (ins : Instr) (r
     | cons => rfl
   rw [traceLoop]
   simp only [hne, Bool.false_eq_true, ↓reduceIte, hp]
-  have key : ∀ row', traceLoop h input.length row' rest = traceLoop h (rest.length + 1) row' rest :=
-    fun row' => traceLoop_fuel h _ _ row' rest (by omega) (by omega)
+  have key : ∀ row' b, traceLoop h input.length row' b rest = traceLoop h (rest.length + 1) row' b rest :=
+    fun row' b => traceLoop_fuel h _ _ row' b rest (by omega) (by omega)
   simp only [key]
   cases hex : execute h row ins with
   | mk r e => cases e <;> rfl
@@ -477,13 +478,13 @@ theorem traceLoop_step (h : Params) (row : Row) (input : Bytes) (ins : Instr) (r
 /-- **Termination.** With fuel above the input length the trace never contains `stuck`: the loop
 of `next_row` ends because every instruction consumes at least one byte, and the decoder never
 panics. -/
-theorem traceLoop_not_stuck (h : Params) : ∀ (fuel : Nat) (row : Row) (input : Bytes),
-    input.length < fuel → Ev.stuck ∉ traceLoop h fuel row input := by
+theorem traceLoop_not_stuck (h : Params) : ∀ (fuel : Nat) (row : Row) (inSeq : Bool) (input : Bytes),
+    input.length < fuel → Ev.stuck ∉ traceLoop h fuel row inSeq input := by
   intro fuel
   induction fuel with
-  | zero => intro row input hl; omega
+  | zero => intro row inSeq input hl; omega
   | succ fuel ih =>
-    intro row input hl
+    intro row inSeq input hl
     rw [traceLoop]
     split
     · simp
@@ -492,7 +493,7 @@ theorem traceLoop_not_stuck (h : Params) : ∀ (fuel : Nat) (row : Row) (input :
       | ok p =>
         obtain ⟨ins, rest⟩ := p
         have hc := parseInstr_consumes h input ins rest hp
-        have key : ∀ row', Ev.stuck ∉ traceLoop h fuel row' rest := fun row' => ih row' rest (by omega)
+        have key : ∀ row' b, Ev.stuck ∉ traceLoop h fuel row' b rest := fun row' b => ih row' b rest (by omega)
         simp only
         cases hex : execute h row ins with
         | mk r e =>
